@@ -279,6 +279,59 @@ func runC04(c *Ctx) {
 			}
 			c.Model("repeatguard", fmt.Sprintf("repeatguard %d %d", ln, count), exp, map[string]any{"len": ln, "count": count})
 		}
+		// the slice bounds of the word and field functions: every count of words with every index around its ends
+		for n := 0; n <= 6; n++ {
+			var ws, fs []string
+			for k := 0; k < n; k++ {
+				ws = append(ws, fmt.Sprintf("w%d", k))
+				fs = append(fs, fmt.Sprintf("f%d", k))
+			}
+			words, fields := types.NewXText(strings.Join(ws, " ")), types.NewXText(strings.Join(fs, ","))
+			idx := func(s string, prefix string) int {
+				var k int
+				fmt.Sscanf(strings.TrimPrefix(s, prefix), "%d", &k)
+				return k
+			}
+			for i := -9; i <= 9; i++ {
+				d := map[string]any{"words": n, "index": i}
+				exp := "none"
+				if !c.Guard("K-wordguard", "panic:word", d, func() {
+					if v := functions.Word(env, words, types.NewXNumberFromInt(i)); !types.IsXError(v) {
+						exp = fmt.Sprintf("ok %d", idx(v.(*types.XText).Native(), "w"))
+					}
+				}) {
+					c.Model("wordguard", fmt.Sprintf("wordguard %d %d", n, i), exp, d)
+				}
+				if n >= 1 {
+					exp = "none"
+					if !c.Guard("K-fieldguard", "panic:field", d, func() {
+						if v := functions.Field(env, fields, types.NewXNumberFromInt(i), types.NewXText(",")); !types.IsXError(v) && v.(*types.XText).Native() != "" {
+							exp = fmt.Sprintf("ok %d", idx(v.(*types.XText).Native(), "f"))
+						}
+					}) {
+						c.Model("fieldguard", fmt.Sprintf("fieldguard %d %d", n, i), exp, d)
+					}
+				}
+				for j := -9; j <= 9; j++ {
+					d2 := map[string]any{"words": n, "start": i, "end": j}
+					exp = "none"
+					if !c.Guard("K-wordsliceguard", "panic:word_slice", d2, func() {
+						var v types.XValue
+						if j == -1 && (i+n)%2 == 0 {
+							v = functions.WordSlice(env, words, types.NewXNumberFromInt(i)) // the end left out
+						} else {
+							v = functions.WordSlice(env, words, types.NewXNumberFromInt(i), types.NewXNumberFromInt(j))
+						}
+						if t, ok := v.(*types.XText); ok && t.Native() != "" {
+							got := strings.Split(t.Native(), " ")
+							exp = fmt.Sprintf("ok %d %d", idx(got[0], "w"), idx(got[len(got)-1], "w")+1)
+						}
+					}) {
+						c.Model("wordsliceguard", fmt.Sprintf("wordsliceguard %d %d %d", n, i, j), exp, d2)
+					}
+				}
+			}
+		}
 		for i := 0; i < c.N(300, 3000); i++ {
 			p := Pick(r, []int{0, 1, -1, 9, 999, 1000, 1001, -999, -1000, -1001, 2147483647, -2147483648, 2147483648, -2147483649, 4294967296, r.Intn(2500) - 1250})
 			exp := "ok"
